@@ -348,7 +348,7 @@ impl Compiler {
         const_value: isize,
         operator: &Operator,
     ) -> Result<(), Error> {
-        let idx_constant = self.add_constant(Object::int(const_value));
+        let idx_constant = self.add_constant(Object::try_int(const_value)?);
         let symbol = self.symbols.resolve(varname);
         match symbol {
             Some(symbol) => {
@@ -397,7 +397,7 @@ impl Compiler {
                 self.emit_u16(idx);
             }
             Expr::Int { value } => {
-                let idx = self.add_constant(Object::int(*value));
+                let idx = self.add_constant(Object::try_int(*value)?);
                 self.emit_opcode(OpCode::Const);
                 self.emit_u16(idx);
             }
